@@ -332,7 +332,8 @@ type kase struct {
 	bgWG         sync.WaitGroup
 	bgMaybe      bool // a background Prefetch/BackgroundFetch goroutine may still be running
 
-	leakF, leakH, leakB int // already attributed to failed resolves
+	skipVerify          bool // this case uses SkipVerify instead of Verify everywhere (seq stage, 1 in 10)
+	leakF, leakH, leakB int  // already attributed to failed resolves
 	verifiedAcross      int
 	quiesced            int
 	concDesc            string
@@ -631,8 +632,11 @@ func (c *kase) opVerify(h *holder) bool {
 	if h.verified {
 		return true
 	}
+	// One mode per case: since /repo 40ef6e6 a layer that some holder put into use with
+	// SkipVerify refuses a later Verify ("already in use without verification"), so mixing
+	// the two on one shared instance is not a legal history any more.
 	var err error
-	if c.rng.Chance(1, 10) {
+	if c.skipVerify {
 		h.l.SkipVerify()
 	} else {
 		err = h.l.Verify(c.w.Layers[h.li].Built.TOCDigest)
@@ -997,8 +1001,14 @@ func (c *kase) reResolve() {
 			c.violate("re-resolve:not-fresh", fmt.Sprintf("after release and expiry of everything a new Resolve of layer %d did not resolve afresh (HEAD=%d, footer fetches=%d): %s", li, lx.Heads(log, c.digest(li)), lx.Covering(log, c.digest(li), size-1), lx.DescribeReqs(log, 10)))
 		}
 		h := c.addHolder(li, l)
-		if err := l.Verify(c.w.Layers[li].Built.TOCDigest); err != nil {
-			c.violate("re-resolve:verify-fails", fmt.Sprintf("layer %d resolved afresh does not verify: %v", li, err))
+		var verr error
+		if c.skipVerify {
+			l.SkipVerify()
+		} else {
+			verr = l.Verify(c.w.Layers[li].Built.TOCDigest)
+		}
+		if verr != nil {
+			c.violate("re-resolve:verify-fails", fmt.Sprintf("layer %d resolved afresh does not verify: %v", li, verr))
 		} else {
 			h.verified = true
 			ls := c.w.Layers[li]
@@ -1016,6 +1026,10 @@ func (c *kase) reResolve() {
 }
 
 func (c *kase) runSeq() {
+	c.skipVerify = c.rng.Chance(1, 10)
+	if c.skipVerify {
+		c.op("Mode(SkipVerify)")
+	}
 	steps := c.rng.Range(25, 60)
 	for s := 0; s < steps; s++ {
 		x := c.rng.Intn(100)
